@@ -239,6 +239,28 @@ def run(ctx):
                     except NotImplementedError:
                         ctx.count("lp:sparse -> NotImplementedError")
 
+                # ---------------- argument forms of v_init (list / tuple / int32 / int64 / float32 vs float64), all four methods:
+                # the result must not depend on the form
+                vint = [rng.randrange(-6, 7) for _ in range(inst.n)]
+                forms_ = c09.arg_forms(vint)
+                names_ = [k_ for k_ in forms_ if k_ != "float64"]
+                for mth, kw in (("vi", {}), ("pi", {}), ("mpi", {"k": 3}), ("lp", {})):
+                    if mth == "lp" and "sparse" in kind:
+                        continue
+                    ref = ddp.solve(method=mth, v_init=forms_["float64"].copy(), **kw)
+                    if mth in ("pi", "lp"):
+                        check_opt(mth, ref, dict(inp0, method=mth, v_init=vint))
+                    for fname in (names_ if (thorough or ii % 4 == 0) else [rng.choice(names_)]):
+                        xv = forms_[fname]
+                        xv = xv.copy() if isinstance(xv, np.ndarray) else xv
+                        res = ddp.solve(method=mth, v_init=xv, **kw)
+                        if np.asarray(res.v).dtype != np.float64 or not np.array_equal(res.v, ref.v) or not np.array_equal(res.sigma, ref.sigma) \
+                                or res.num_iter != ref.num_iter:
+                            ctx.fail("argument_form", "solve(%s) depends on the form (type/dtype) in which v_init is passed" % mth,
+                                     dict(inp0, method=mth, v_init=vint, v_form=fname),
+                                     {"v": res.v, "sigma": res.sigma, "num_iter": res.num_iter}, {"v": ref.v, "sigma": ref.sigma, "num_iter": ref.num_iter})
+                        ctx.count("argument form v_init:" + fname)
+
                 # ---------------- value iteration (PrimFloat instance of the model; exact Q instance for short runs)
                 for rep in range(2 if (thorough or ii % 2 == 0) else 1):
                     eps = rng.choice([None, 1e-1, 1e-3, 1e-6])
